@@ -1018,7 +1018,9 @@ class C08(Prop):
             "with non-zero padding, 2/3/4-byte label characters, collected slots) are saved and loaded; (i) the bytes written "
             "equal the model's encode (correspondence), (ii) the loaded graph's complete internal state equals the original's "
             "except the allocator position (0), (iii) the same random continuation (no next_id) is applied to both and must "
-            "give identical answers and states call by call, (iv) next_id() on the loaded graph returns the lowest absent id. "
+            "give identical answers and states call by call, (iv) next_id() on the loaded graph returns the lowest absent id, "
+            "(v) in a third of the histories the reloaded graph, after that continuation, is saved and loaded again and the "
+            "result once more: every generation must give back the graph that was saved (up to the allocator). "
             "Non-trivial = the continuation contains a collection; distinct = distinct image")
 
     def generate(self, rng, tier):
@@ -1044,6 +1046,10 @@ class C08(Prop):
                 ops.append(" ".join([p[0], "h"] + p[2:]))
                 pairs.append((len(ops) - 2, len(ops) - 1))
             ops += ["NEXT h", "KEYS g", "KEYS h"]
+            if i % 3 == 1 and not os.environ.get("VERIF_NO_W12"):
+                # further generations (C08_save_load_save, C08_generations_stable): the reloaded and since mutated
+                # graph is itself saved and loaded, and so is the result
+                ops += ["SAVE h img2", "LOAD img2 h2", "SAVE h2 img3", "LOAD img3 h3", "KEYS h3", "NEXT h3"]
             hs.append(History("c08-%d" % i, h0.n, ops, {"save_at": k, "pairs": pairs, "cap": h0.meta["cap"]}))
         # data whose length crosses the 2-byte length form of the image (65535 / 65536) and well beyond
         for j, (l1, l2, l3) in enumerate([] if os.environ.get("VERIF_NO_W9") else [(65535, 65536, 70000), (65536, 250, 251), (131072, 65537, 0)]):
@@ -1097,6 +1103,19 @@ class C08(Prop):
             if lines[a][0] != lines[b][0] or self.mod_next(lines[a][1]) != self.mod_next(lines[b][1]):
                 return {"reason": "the same call (%s) behaves differently on the original and the reloaded graph" % h.ops[a],
                         "index": b, "expected": il[a][:500], "observed": il[b][:500]}
+        last = {}
+        for i, (op, (res, snap)) in enumerate(zip(h.ops, lines)):
+            p = op.split()
+            if p[0] == "LOAD" and i > k + 1 and h.ops[i - 1].startswith("SAVE "):
+                src = h.ops[i - 1].split()[1]
+                if not lines[i - 1][0].startswith("ok") or res != "ok":
+                    return {"reason": "a later generation of save/load failed (%s; %s)" % (h.ops[i - 1], op), "index": i,
+                            "expected": "ok", "observed": (lines[i - 1][0][:40] + " ; " + res)[:200]}
+                if src in last and self.mod_next(snap) != self.mod_next(last[src]):
+                    return {"reason": "a later generation (%s; %s) does not give the saved graph back" % (h.ops[i - 1], op),
+                            "index": i, "expected": str(last[src])[:600], "observed": str(snap)[:600]}
+            if snap is not None and len(p) > 1:
+                last[p[2] if p[0] == "LOAD" else p[1]] = snap
         for i, (op, (res, snap)) in enumerate(zip(h.ops, lines)):
             if op == "NEXT h" and res != "PANIC" and i > 0:
                 prev = next((parse_snapshot(lines[j][1]) for j in range(i - 1, -1, -1)
